@@ -258,6 +258,45 @@ class DiscreteStridedIntervalSet(StridedInterval):
 
         return self.collapse() >= o
 
+    # The signed orderings, multiplication, logical right shift, signed division and the min/max queries used to be
+    # inherited from StridedInterval. There they read self.lower_bound / self.upper_bound / self.stride, which for a set are
+    # the full range [0, 2**bits - 1] and the stride of the collapsed interval: a lattice that need not contain the members
+    # ({1} U {3} was treated as 2[0,3] = {0, 2}), so the results could exclude values the set takes, and singleton members
+    # made _nsplit divide by a zero stride.
+
+    @convert_operand_to_si
+    @collapse_operand
+    def SLT(self, o):
+        return self.collapse().SLT(o)
+
+    @convert_operand_to_si
+    @collapse_operand
+    def SLE(self, o):
+        return self.collapse().SLE(o)
+
+    @convert_operand_to_si
+    @collapse_operand
+    def SGT(self, o):
+        return self.collapse().SGT(o)
+
+    @convert_operand_to_si
+    @collapse_operand
+    def SGE(self, o):
+        return self.collapse().SGE(o)
+
+    @convert_operand_to_si
+    @collapse_operand
+    def sdiv(self, o):
+        return self.collapse().sdiv(o)
+
+    def min(self, signed=False):
+        vals = [si.min(signed=signed) for si in self._si_set if not si.is_empty]
+        return min(vals) if vals else None
+
+    def max(self, signed=False):
+        vals = [si.max(signed=signed) for si in self._si_set if not si.is_empty]
+        return max(vals) if vals else None
+
     # Bitwise operations
 
     @convert_operand_to_si
@@ -399,7 +438,31 @@ class DiscreteStridedIntervalSet(StridedInterval):
         """
 
     def __rsub__(self, o):
-        return self.__sub__(o)
+        # o - self (this used to return self - o)
+        return self.__neg__().__add__(o)
+
+    @convert_operand_to_si
+    @apply_on_each_si
+    def __mul__(self, o):
+        """
+        Operation *
+
+        :param o:   The other operand.
+        :return:
+        """
+
+    def __rmul__(self, o):
+        return self.__mul__(o)
+
+    @convert_operand_to_si
+    @apply_on_each_si
+    def LShR(self, o):
+        """
+        Logical shift right
+
+        :param o:   The shift amount.
+        :return:
+        """
 
     @convert_operand_to_si
     @apply_on_each_si
@@ -414,8 +477,10 @@ class DiscreteStridedIntervalSet(StridedInterval):
     def __truediv__(self, o):
         return self.__floordiv__(o)  # floats not welcome
 
+    @convert_operand_to_si
     def __rfloordiv__(self, o):
-        return self.__floordiv__(o)
+        # o / self (this used to return self / o)
+        return o.__floordiv__(self.collapse())
 
     def __rtruediv__(self, o):
         return self.__rfloordiv__(o)
@@ -430,8 +495,10 @@ class DiscreteStridedIntervalSet(StridedInterval):
         :return:
         """
 
+    @convert_operand_to_si
     def __rmod__(self, o):
-        return self.__mod__(o)
+        # o % self (this used to return self % o)
+        return o.__mod__(self.collapse())
 
     # Evaluation
 
